@@ -144,6 +144,13 @@ package multi
 //@   requires f.funders != nil && forall b uint32, s string :: has(f.funders, key(b, s)) ==> f.funders[key(b, s)] != nil
 //@   modifies *
 //@   callsite fundLedgers : funders == f.funders && (assetIDs == nonEgoisticLedgers || (assetIDs == egoisticLedgers && fundedOK(nonEgoisticLedgers)))
+// ... and what the two lists hold at the time of the calls: the egoistic list is empty or exactly the ledger at egoisticIndex, the other
+// list holds all other ledgers of the distinct-ledger list in order (splitAt: position k of it is position k, or k+1 from the egoistic
+// index on); together they are as long as the distinct-ledger list, so every distinct ledger is funded exactly once.
+//@   callsite fundLedgers : len(egoisticLedgers) + len(nonEgoisticLedgers) == len(ledgerIDs) && len(egoisticLedgers) <= 1 &&
+//@     (len(egoisticLedgers) == 1 ==> f.egoistic && 0 <= f.egoisticIndex && f.egoisticIndex < len(ledgerIDs) && egoisticLedgers[0] == ledgerIDs[f.egoisticIndex]) &&
+//@     (f.egoistic && 0 <= f.egoisticIndex && f.egoisticIndex < len(ledgerIDs) ==> len(egoisticLedgers) == 1) &&
+//@     forall k int :: {nonEgoisticLedgers[k]} 0 <= k && k < len(nonEgoisticLedgers) ==> nonEgoisticLedgers[k] == ledgerIDs[(f.egoistic && 0 <= f.egoisticIndex && f.egoisticIndex <= k) ? k + 1 : k]
 //@   ensures result == nil ==> exists e []LedgerBackendID, n []LedgerBackendID :: fundedOK(e) && fundedOK(n)
 //@   loop 1
 //@     modifies fresh
@@ -152,6 +159,7 @@ package multi
 //@       (ledgerIDs != nil ==> arr(egoisticLedgers) != arr(ledgerIDs) && arr(nonEgoisticLedgers) != arr(ledgerIDs))
 //@     invariant (forall k int :: 0 <= k && k < len(ledgerIDs) ==> ledgerIDs[k] != nil) && (forall k int :: 0 <= k && k < len(egoisticLedgers) ==> egoisticLedgers[k] != nil) &&
 //@       (forall k int :: 0 <= k && k < len(nonEgoisticLedgers) ==> nonEgoisticLedgers[k] != nil)
+//@     invariant forall k int :: {nonEgoisticLedgers[k]} 0 <= k && k < len(nonEgoisticLedgers) ==> nonEgoisticLedgers[k] == ledgerIDs[(f.egoistic && 0 <= f.egoisticIndex && f.egoisticIndex <= k) ? k + 1 : k]
 //@     invariant len(egoisticLedgers) + len(nonEgoisticLedgers) == $i && len(egoisticLedgers) <= 1 &&
-//@       (len(egoisticLedgers) == 1 ==> f.egoistic && f.egoisticIndex < $i && egoisticLedgers[0] == ledgerIDs[f.egoisticIndex]) &&
+//@       (len(egoisticLedgers) == 1 ==> f.egoistic && 0 <= f.egoisticIndex && f.egoisticIndex < $i && egoisticLedgers[0] == ledgerIDs[f.egoisticIndex]) &&
 //@       (f.egoistic && 0 <= f.egoisticIndex && f.egoisticIndex < $i ==> len(egoisticLedgers) == 1)
